@@ -38,7 +38,7 @@ Print Assumptions C03_time_arith.
 (* indices taken from the input are checked: an index outside its table yields an error value (std::runtime_error), never a value *)
 Theorem C03_index_checked : forall tbs i n, N.of_nat (length (lst (nth_o tbs i))) <= n -> tl_get tbs i (Some (VN n)) = None.
 Proof.
-  intros tbs i n H. unfold tl_get. destruct (nth_error (lst (nth_o tbs i)) (N.to_nat n)) eqn:E; [|reflexivity].
+  intros tbs i n H. unfold tl_get. rewrite nthN_spec. destruct (nth_error (lst (nth_o tbs i)) (N.to_nat n)) eqn:E; [|reflexivity].
   assert (nth_error (lst (nth_o tbs i)) (N.to_nat n) <> None) by congruence. apply nth_error_Some in H0. lia.
 Qed.
 Print Assumptions C03_index_checked.
